@@ -107,6 +107,17 @@ Theorem C10_unremoved_orphan_surfaces :
 Proof. exact unremoved_orphan_surfaces. Qed.
 Print Assumptions C10_unremoved_orphan_surfaces.
 
+(* Same-version leftovers (what an AMBIGUOUS failed commit keeps on purpose): with the pointer lost or
+   unparseable, recovery still picks the published file L as long as every other file has a lower version or
+   the same version and a strictly older mtime -- in every listing order, for any directory (reachable or
+   not).  With EQUAL mtimes the first file listed wins (tiebreak_equal_mtime_first_listed), so nothing is
+   claimed there. *)
+Theorem C10_tiebreak : forall (fs : list mfile) (L : mfile) (p : option (option (list cp))),
+  Forall wf_file fs -> In L fs -> (forall f, In f fs -> f <> L -> below f L) -> read_hint p = PRet None ->
+  resolve p (map entry_of fs) = RRet (Some (fver L, fname L)).
+Proof. exact tiebreak. Qed.
+Print Assumptions C10_tiebreak.
+
 (* Readable and writable with all committed data: after ANY non-stale damage to the pointer of any
    reachable store, a commit goes through, builds on the latest committed version (same uuid, exactly the
    acknowledged snapshots plus the new one), repairs the pointer, and the result is reachable again -- so
